@@ -47,6 +47,19 @@ class Check(PropertyCheck):
     def scenario(self, rng: random.Random, tier, i) -> Scenario:
         family, jobs = gen.gen_instance(rng, max_jobs=4 if tier == "quick" else 5, max_ops=4)
         f = gen.gen_filter(rng)
+        if rng.random() < 0.2:
+            # the solver's own default filter on small instances with zero durations and repeated machines within a job
+            J, M = rng.randint(2, 3), rng.randint(2, 3)
+            jobs = []
+            for _ in range(J):
+                m = rng.randrange(M)
+                job = []
+                for _ in range(rng.randint(1, 3)):
+                    if rng.random() < 0.5:
+                        m = rng.randrange(M)
+                    job.append(([m], rng.choice([0, 0, 1, 3])))
+                jobs.append(job)
+            family, f = "zero_chain", ["dom", "nidle"]
         lines = ["new", instance_line(jobs), gen.filter_line(f)]
         kind = "solve" if i % 2 == 0 else "states"
         n_acc = 0
